@@ -10,7 +10,7 @@ from ..interp import Interp, Hooks
 from ..templates import extract, generic_instances, show
 from ..formulas import LANGS
 from .. import oracle
-from ..report import Finding, RuleResult, floor
+from ..report import Finding, RuleResult, floor, Attempts
 
 PROP = 'C05'
 METHOD = 'get_equivalent_restricted_formula'
@@ -281,8 +281,9 @@ def rule_rw3(prog):
 
 
 def run(prog, tier, seed):
-    r1, r2 = rules_rw12(prog, tier)
-    r3 = rule_rw3(prog)
+    T = Attempts()
+    r1, r2 = T(rules_rw12, prog, tier, _n=2)
+    r3 = T(rule_rw3, prog)
     expl = ('Each rewriter is interpreted abstractly on a generic instance '
             'C(c0,..) whose children are holes; the result is a closed '
             'rewrite template. R-RW-1: templates use only the restricted '
@@ -299,4 +300,4 @@ def run(prog, tier, seed):
                    'bounded verdicts hold up to the stated model size',
                    'LNot is used as a summary in R-RW-1/2 and verified '
                    'separately by R-RW-3']
-    return [r1, r2, r3], expl, assumptions, {}
+    return T.results(r1, r2, r3), expl, assumptions, T.extra()
